@@ -95,6 +95,10 @@ def magnitude_families(delta=0):
     f["multiplication_magnitude"] = lambda k: "x = %s * %s\n#d8 x`8\n" % (lit(k), lit(k))
     f["addition_magnitude"] = lambda k: "x = %s + %s\n#d8 x`8\n" % (lit(k), lit(k))
     f["repeated_squaring"] = lambda k: "".join("x%d = x%d * x%d\n" % (i + 1, i, i) for i in range(k)) + "x0 = 0x10000\n#d8 x%d`8\n" % k if k <= 40 else None
+    # a small left operand times a right operand at the limit, the product fed back as the right operand
+    # (powers of two, so that each product is cheap if it is wrongly computed): diagnosed at the first product
+    f["mul_small_by_huge_chain"] = lambda k: ("a = 1 << 399999990\nx0 = 1 << 799999990\n" +
+        "".join("x%d = a * x%d\n" % (i + 1, i) for i in range(k)) + "#d8 (x%d != 0) ? 1 : 0\n" % k) if k <= 16 else None
     f["concat_sizes"] = lambda k: "x = 1`%s @ 1`%s\n#d8 x`8\n" % (lit(k), lit(k))
     f["incbin_start"] = lambda k: "#d incbin(\"data.bin\", %s, 1)\n" % lit(k)
     f["incbin_length"] = lambda k: "#d incbin(\"data.bin\", 0, %s)\n" % lit(k)
